@@ -75,7 +75,9 @@ CHECKS = {
     technique='Coq proof (print/read round trip for ints and strings) + differential correspondence + read-print-read oracle'),
  'C12': dict(
     text='Theorems (Coq): qualified names address exactly one trace; with one trace the qualified and plain name agree; stepping a named trace moves only it; the loaded-trace '
-         'count equals the number of traces over every load/unload sequence; a failed load changes nothing; unload removes exactly that trace.' + DIFF,
+         'count equals the number of traces over every load/unload sequence; a failed load changes nothing; unload removes exactly that trace; and for the WHOLE evaluator '
+         '(ContInv.v, induction over every operator): every completed evaluation keeps ids distinct, every trace filed under its own id and the count equal to the number of traces, '
+         'hence in every state reachable from a new interpreter by any sequence of load/step/eval/run.' + DIFF,
     technique='Coq proof (container invariants by induction over operations) + differential correspondence'),
  'C13': dict(
     text='Theorems (Coq, any body, any history of reads): a cache hit returns the value stored under the current timestamp; a miss evaluates the body at the current index and '
